@@ -42,6 +42,11 @@ EXTRA = [
     'SELECT * FROM int1.t1 JOIN mindsdb.pred JOIN int2.t2 USING partition_size = 2',
     'SELECT * FROM INT1.t1 JOIN Int2.t2 ON t1.id = t2.id',
     'SELECT * FROM files.f', 'SELECT * FROM views.v JOIN int1.t1 ON v.id = t1.id',
+    # statements other than SELECT that read a table named like a CTE of an earlier statement
+    'INSERT INTO int1.t3 (id) SELECT orders.id FROM orders JOIN int2.t2 ON orders.id = t2.id',
+    'CREATE TABLE int1.n (SELECT * FROM orders JOIN int2.t2 ON orders.id = t2.id)',
+    'DELETE FROM int1.t1 WHERE id IN (SELECT id FROM orders)',
+    'UPDATE int1.t1 SET a = 1 FROM (SELECT * FROM orders JOIN int2.t2 ON orders.id = t2.id) AS s WHERE t1.id = s.id',
     # a CTE and, in another statement, a real table of the same name (default namespace / another integration)
     'WITH orders AS (SELECT * FROM int1.t1 WHERE a = 1) SELECT * FROM orders JOIN int2.t2 ON orders.id = t2.id',
     'SELECT * FROM orders JOIN int2.t2 ON orders.id = t2.id',
@@ -251,6 +256,9 @@ RENDER_SQL = [
     'select a from t order by a desc nulls last limit 1 offset 0', 'create table t (a serial, b int)', 'select cast(a as int), cast(b as varchar) from t',
     "update t set a = 1, b = true where c = 1.0", "select 'a%b', ':x' from t", 'select * from t1 left join t2 on t1.id = t2.id', 'select cast(a as foo) from t',
     'select date_add(a, interval 1 day) from t', 'select a, count(*) from t group by a having count(*) > 1',
+    # DDL on one table name with different column lists (renderers that remember table definitions)
+    'create table t (c int, d text)', 'create table t (a int)', 'drop table t', 'drop table if exists t', 'create table if not exists t (z float)',
+    'create table s.t (a int, b int)', 'create table u (a int)',
 ]
 
 
